@@ -107,7 +107,10 @@ def _c11_play(scenario, sigma, params, streams, perm_seed):
             sdesc["reg_order"] = order
         sess = driver.run_session(world, model, sdesc, "C11", si, gen_cb=gen_cb, sink=scenario["sessions"], check_shape=shape)
         if sess.error is not None:
-            return ("abort", type(sess.error).__name__, str(sess.error)[:200]), nperm, False
+            # (whether an earlier session's re-layout put the byte intervals in
+            # another order - finding F03 - is known at this point and is part
+            # of the cause: blocks are visited in address order)
+            return ("abort", type(sess.error).__name__, str(sess.error)[:200]), nperm, bool(getattr(model, "reordered_ever", False))
         driver.apply_to_model(sess)
         model.end_session()
         obs = observe.Obs(world, model)
